@@ -919,8 +919,20 @@ BUILTINS = {"len", "str", "isinstance", "bytes", "int", "float", "max", "min", "
 
 
 def skeleton(fn, cls_name=None):
-    """ordered structural events of a function body (no local names, no literals, no logging)."""
+    """ordered structural events of a function body (no local names, no logging; the conditions of `if` / `while` are kept
+    with local names anonymised)."""
     out = []
+    local_names = {a.arg for a in ast.walk(fn) if isinstance(a, ast.arg)} | \
+                  {n.id for n in ast.walk(fn) if isinstance(n, ast.Name) and isinstance(n.ctx, (ast.Store, ast.Del))}
+    local_names.discard("self")
+
+    class _Anon(ast.NodeTransformer):
+        def visit_Name(self, node):
+            return ast.copy_location(ast.Name(id="_", ctx=node.ctx), node) if node.id in local_names else node
+
+    def shape(test):
+        import copy
+        return ast.unparse(_Anon().visit(copy.deepcopy(test)))
 
     def callee(f):
         try:
@@ -1031,7 +1043,7 @@ def skeleton(fn, cls_name=None):
                 out.append("L- " + nm)
         elif isinstance(s, ast.If):
             _walk_expr(s.test)
-            out.append("IF")
+            out.append("IF " + shape(s.test))
             block(s.body)
             if s.orelse:
                 out.append("ELSE")
@@ -1039,7 +1051,7 @@ def skeleton(fn, cls_name=None):
             out.append("END")
         elif isinstance(s, ast.While):
             _walk_expr(s.test)
-            out.append("WHILE")
+            out.append("WHILE " + shape(s.test))
             block(s.body)
             out.append("END")
         elif isinstance(s, ast.For):
